@@ -58,6 +58,10 @@ def check_valid(pc, goal, timeout_ms=None, use_cvc5=True, seed=0, facts=None):
     sub = [c for c in pc if _symbols(c) <= gs]
     if len(sub) != len(pc):
         variants.append(('z3/goal-symbols-only', sub))
+    for k in (8, 24):
+        # only the most recent hypotheses (e.g. the exit lemmas just proved): sound like every weakened variant
+        if len(pc) > k:
+            variants.append(('z3/tail%d' % k, pc[-k:]))
     total = 0.0
     reason = ''
     full_smt2 = None
